@@ -55,6 +55,15 @@ def run(ctx):
     check_completeness(ctx, ht, 'C03.1')
     check_sizes(ctx, ht, 'C03.4')
     check_footer(ctx, ht, 'C03.5')
+    ctx.rule('C03.9', 'the cropper states true dimensions: aligned bounds stay within the source axis on every path')
+    from .c10 import alignment
+    from .c09 import _relabel
+    n0 = len(ctx.findings)
+    alignment(ctx)
+    for fnd in ctx.findings[n0:]:
+        if fnd.rule == 'C10.7':
+            fnd.rule = 'C03.9'
+    _relabel(ctx, ('C10.7',), 'C03.9')
     ctx.rule('C03.8', 'version-dependent fields are decoded under their version gate; a re-stamped copy converts them')
     if version_gated_fields(ctx, ht, 'C03.8') < 2:
         raise AnalysisError('decodes of the sample-interval field (28:32): fewer than the 2 confirmed sites')
